@@ -11,6 +11,10 @@
  */
 #include "hc.h"
 
+/* a type WITHOUT a Show instance: %$ falls back to the generic "<'Type' At 0x...>" text */
+struct Plain { int64_t v; };
+static var Plain = Cello(Plain);
+
 static char dir[64];
 static void bytes_key(const char* k, const char* s, size_t n) { ev_key(k); ev_s("["); for (size_t i = 0; i < n; i++) { if (i) ev_s(","); ev_i((unsigned char)s[i]); } ev_s("]"); }
 static void raw_int(const char* k, int64_t v) { ev_limbs(k, (uint64_t)v); }
@@ -88,25 +92,32 @@ int main(int argc, char** argv) {
             char* p = strchr(w, ','); var first = NULL;
             while (p && p[1]) { int64_t v = strtoll(p + 1, &p, 10); var e = new_raw(Int, $I(v)); if (!first) first = e; push(a, e); if (*p != ',') break; }
             if (w[1] == 'D' && first) push(a, first);
+          } else if (w[1] == 'N') {                     /* an object whose type has no Show instance */
+            a = alloc_raw(Plain); ((struct Plain*)a)->v = strtoll(w + 3, NULL, 10);
+          } else if (w[1] == 'X') {                     /* an Array of such objects */
+            a = new_raw(Array, Plain);
+            char* p = strchr(w, ',');
+            while (p && p[1]) { int64_t v = strtoll(p + 1, &p, 10); struct Plain* e = $(Plain, v); push(a, e); if (*p != ',') break; }
           } else a = mkarg(w[1], w + 3);
           args[na++] = a;
           var t = new_raw(String, $S("")); show_to(a, t, 0);
           parts[np] = strdup(c_str(t)); plen[np] = strlen(c_str(t)); isconv[np] = 1; np++;
           /* a container's text is not taken on trust: it must contain its elements' own show texts, each once, in iteration
              order, joined the way that container kind joins them (built here from foreach + show of every element) */
-          if (w[1] == 'A' || w[1] == 'L' || w[1] == 'T' || w[1] == 'U') {
-            var body = new_raw(String, $S("")); int bp = 0, first = 1; size_t cnt = 0, lim = len(a) + 2;
-            if (w[1] != 'D') foreach (e in a) {
-              if (cnt++ > lim) break;
-              if (!first) bp = print_to(body, bp, ", ");
-              first = 0;
-              bp = show_to(e, body, bp);
-              if (w[1] == 'T') { bp = print_to(body, bp, ":"); bp = show_to(get(a, e), body, bp); }
-            }
+          if (w[1] == 'A' || w[1] == 'L' || w[1] == 'T' || w[1] == 'U' || w[1] == 'X') {
+            static char body[1 << 16]; size_t bl = 0; int first = 1; size_t cnt = 0, lim = len(a) + 2;
             const char* open_ = w[1] == 'T' ? "{" : w[1] == 'U' ? "(" : "[";  const char* close_ = w[1] == 'T' ? "}" : w[1] == 'U' ? ")" : "]";
-            var want = new_raw(String, $S("")); print_to(want, 0, "%s%s%s", $S((char*)open_), body, $S((char*)close_));
-            if (!strstr(c_str(t), c_str(want)) || cnt != len(a)) showbad++;
-            del_raw(body); del_raw(want);
+            bl += (size_t)snprintf(body + bl, sizeof body - bl, "%s", open_);
+            foreach (e in a) {                          /* every element shown on its own, at position 0 of a fresh String */
+              if (cnt++ > lim) break;
+              var es = new_raw(String, $S("")); show_to(e, es, 0);
+              bl += (size_t)snprintf(body + bl, sizeof body - bl, "%s%s", first ? "" : ", ", c_str(es)); del_raw(es);
+              first = 0;
+              if (w[1] == 'T') { var vs = new_raw(String, $S("")); show_to(get(a, e), vs, 0); bl += (size_t)snprintf(body + bl, sizeof body - bl, ":%s", c_str(vs)); del_raw(vs); }
+              if (bl > sizeof body - 8192) break;
+            }
+            bl += (size_t)snprintf(body + bl, sizeof body - bl, "%s", close_);
+            if (!strstr(c_str(t), body) || cnt != len(a)) showbad++;
           }
           del_raw(t);
         }
